@@ -7,14 +7,12 @@ from typing import Any
 from .model import ClassRef, ExtRef, FuncInfo, FuncRef, ModRef, Repo, dotted, norm_src, walk_no_nested
 
 
-_ln_cache: dict[int, set[str]] = {}
-
-
 def local_names(fi: FuncInfo) -> set[str]:
-    k = id(fi.node)
-    if k not in _ln_cache:
-        _ln_cache[k] = _local_names(fi)
-    return _ln_cache[k]
+    v = getattr(fi.node, '_wc_locals', None)
+    if v is None:
+        v = _local_names(fi)
+        fi.node._wc_locals = v
+    return v
 
 
 def _local_names(fi: FuncInfo) -> set[str]:
@@ -29,13 +27,14 @@ def _local_names(fi: FuncInfo) -> set[str]:
 
 def resolve_callee(repo: Repo, fi: FuncInfo, call: ast.Call) -> list[FuncInfo] | str | None:
     """Return package functions a call may reach, or a dotted external name, or None (unresolved)."""
-    k = (id(repo), id(call))
-    if k not in _rc_cache:
-        _rc_cache[k] = resolve_func_expr(repo, fi, call.func)
-    return _rc_cache[k]
+    v = getattr(call, '_wc_callee', _MISSING)
+    if v is _MISSING:
+        v = resolve_func_expr(repo, fi, call.func)
+        call._wc_callee = v
+    return v
 
 
-_rc_cache: dict[tuple[int, int], Any] = {}
+_MISSING = object()
 
 
 def resolve_func_expr(repo: Repo, fi: FuncInfo, f: ast.AST, depth: int = 0) -> list[FuncInfo] | str | None:
@@ -212,10 +211,8 @@ class CallGraph:
         return seen
 
 
-_cg: dict[int, CallGraph] = {}
-
-
 def callgraph(repo: Repo) -> CallGraph:
-    if id(repo) not in _cg:
-        _cg[id(repo)] = CallGraph(repo)
-    return _cg[id(repo)]
+    store = repo.__dict__.setdefault('_wc_cache', {})
+    if 'callgraph' not in store:
+        store['callgraph'] = CallGraph(repo)
+    return store['callgraph']
